@@ -164,6 +164,12 @@ pub trait G:
     fn bincode_de(b: &[u8]) -> Result<RangeProof<Self>, String>;
     fn gi_vec(p: &RangeParameters<Self>) -> Vec<Self>;
     fn hi_vec(p: &RangeParameters<Self>) -> Vec<Self>;
+    /// One public generator iterator (`h`: the H one) driven through a sequence of calls: (false, _) = next(), (true, k) = nth(k)
+    fn gens_iter_walk(p: &RangeParameters<Self>, h: bool, steps: &[(bool, usize)]) -> Vec<Option<Self>>;
+    /// `iter.skip(a).step_by(s).collect()` on a public generator iterator
+    fn gens_iter_skip_step(p: &RangeParameters<Self>, h: bool, a: usize, s: usize) -> Vec<Self>;
+    /// (`iter.count()`, `iter.last()`) after `a` calls of next()
+    fn gens_iter_count_last(p: &RangeParameters<Self>, h: bool, a: usize) -> (usize, Option<Self>);
     /// Probe the precomputed table: the result of a static-only multiscalar multiplication
     fn precomp_static(p: &RangeParameters<Self>, scalars: &[Scalar]) -> Self;
     fn h_compressed(p: &RangeParameters<Self>) -> [u8; 32];
@@ -259,6 +265,39 @@ macro_rules! impl_lib_api {
 
         fn hi_vec(p: &RangeParameters<Self>) -> Vec<Self> {
             p.hi_base_iter().cloned().collect()
+        }
+
+        fn gens_iter_walk(p: &RangeParameters<Self>, h: bool, steps: &[(bool, usize)]) -> Vec<Option<Self>> {
+            fn walk<'a, T: Clone + 'a>(mut it: impl Iterator<Item = &'a T>, steps: &[(bool, usize)]) -> Vec<Option<T>> {
+                steps.iter().map(|(is_nth, k)| if *is_nth { it.nth(*k).cloned() } else { it.next().cloned() }).collect()
+            }
+            if h {
+                walk(p.hi_base_iter(), steps)
+            } else {
+                walk(p.gi_base_iter(), steps)
+            }
+        }
+
+        fn gens_iter_skip_step(p: &RangeParameters<Self>, h: bool, a: usize, s: usize) -> Vec<Self> {
+            if h {
+                p.hi_base_iter().skip(a).step_by(s).cloned().collect()
+            } else {
+                p.gi_base_iter().skip(a).step_by(s).cloned().collect()
+            }
+        }
+
+        fn gens_iter_count_last(p: &RangeParameters<Self>, h: bool, a: usize) -> (usize, Option<Self>) {
+            fn adv<'a, T: Clone + 'a>(mut it: impl Iterator<Item = &'a T>, a: usize) -> impl Iterator<Item = &'a T> {
+                for _ in 0..a {
+                    it.next();
+                }
+                it
+            }
+            if h {
+                (adv(p.hi_base_iter(), a).count(), adv(p.hi_base_iter(), a).last().cloned())
+            } else {
+                (adv(p.gi_base_iter(), a).count(), adv(p.gi_base_iter(), a).last().cloned())
+            }
         }
 
         fn precomp_static(p: &RangeParameters<Self>, scalars: &[Scalar]) -> Self {
